@@ -82,3 +82,59 @@ Proof.
     + apply get_push_obj_old. assumption.
     + rewrite (get_obj_ge s o) by lia. apply get_obj_ge. unfold push_obj, set_objs. cbn [fst s_objs]. rewrite app_length. simpl. lia.
 Qed.
+
+(* ---------------------------------------------------------------- well-formed schemas *)
+
+Lemma forallb_i_nth : forall A (f : nat -> A -> bool) l i j x,
+  forallb_i f i l = true -> nth_error l j = Some x -> f (i + j)%nat x = true.
+Proof.
+  induction l as [|y l IH]; intros i j x H N.
+  - destruct j; discriminate.
+  - simpl in H. apply andb_true_iff in H. destruct H as [H1 H2]. destruct j; simpl in N.
+    + inversion N; subst. rewrite Nat.add_0_r. assumption.
+    + replace (i + S j)%nat with (S i + j)%nat by lia. eapply IH; eauto.
+Qed.
+
+Lemma wf_get_attr : forall sch e a at_, wf_schema sch = true -> get_attr sch e a = Some at_ -> wf_attr sch e a at_ = true.
+Proof.
+  intros sch e a at_ W G. unfold get_attr in G. destruct (nth_error sch e) as [en|] eqn:E; try discriminate.
+  unfold wf_schema in W. pose proof (forallb_i_nth _ _ _ _ _ _ W E) as H1. simpl in H1.
+  pose proof (forallb_i_nth _ _ _ _ _ _ H1 G) as H2. simpl in H2. assumption.
+Qed.
+
+Lemma wf_ref_not_uniq : forall sch e a p, wf_schema sch = true -> ref_info sch e a = Some p -> attr_uniq sch e a = false.
+Proof.
+  intros sch e a p W R. unfold ref_info in R. unfold attr_uniq. destruct (get_attr sch e a) as [at_|] eqn:G; auto.
+  pose proof (wf_get_attr sch e a at_ W G) as H. unfold wf_attr in H. destruct (a_kind at_); try discriminate.
+  apply andb_true_iff in H. destruct H as [H _]. apply andb_true_iff in H. destruct H as [H _].
+  apply negb_true_iff in H. assumption.
+Qed.
+
+Lemma wf_set_not_uniq : forall sch e a, wf_schema sch = true -> attr_is_set sch e a = true -> attr_uniq sch e a = false.
+Proof.
+  intros sch e a W R. unfold attr_is_set in R. unfold attr_uniq. destruct (get_attr sch e a) as [at_|] eqn:G; auto.
+  pose proof (wf_get_attr sch e a at_ W G) as H. unfold wf_attr in H. destruct (a_kind at_); try discriminate.
+  apply andb_true_iff in H. destruct H as [H _]. apply andb_true_iff in H. destruct H as [H _].
+  apply andb_true_iff in H. destruct H as [H _]. apply negb_true_iff in H. assumption.
+Qed.
+
+(* ref_info / set_info are each other's reverse in a well-formed schema *)
+Lemma wf_set_ref : forall sch e a t r, wf_schema sch = true -> set_info sch e a = Some (t, r) -> ref_info sch t r = Some (e, a).
+Proof.
+  intros sch e a t r W S. unfold set_info in S. destruct (get_attr sch e a) as [at_|] eqn:G; try discriminate.
+  pose proof (wf_get_attr sch e a at_ W G) as H. unfold wf_attr in H.
+  destruct (a_kind at_) eqn:K; try discriminate. inversion S; subst.
+  apply andb_true_iff in H. destruct H as [_ H]. unfold ref_info.
+  destruct (get_attr sch t r) as [[k2 rq uq]|]; try discriminate. destruct k2; try discriminate.
+  simpl. apply andb_true_iff in H. destruct H as [H1 H2]. apply Nat.eqb_eq in H1, H2. subst. reflexivity.
+Qed.
+
+Lemma wf_ref_set : forall sch e a t r, wf_schema sch = true -> ref_info sch e a = Some (t, r) -> set_info sch t r = Some (e, a).
+Proof.
+  intros sch e a t r W S. unfold ref_info in S. destruct (get_attr sch e a) as [at_|] eqn:G; try discriminate.
+  pose proof (wf_get_attr sch e a at_ W G) as H. unfold wf_attr in H.
+  destruct (a_kind at_) eqn:K; try discriminate. inversion S; subst.
+  apply andb_true_iff in H. destruct H as [_ H]. unfold set_info.
+  destruct (get_attr sch t r) as [[k2 rq uq]|]; try discriminate. destruct k2; try discriminate.
+  simpl. apply andb_true_iff in H. destruct H as [H1 H2]. apply Nat.eqb_eq in H1, H2. subst. reflexivity.
+Qed.
